@@ -377,7 +377,7 @@ def check_cases(rep, work, vh, prelude, cases, tag, timeout):
 def model_check(work, quick):
     """Design-level runs: the laws on every match list of the bounded universe; the deviation must be caught."""
     cfg = "RegexMC_quick.cfg" if quick else "RegexMC.cfg"
-    res = vc.tlc(work.dir, "RegexMC.tla", cfg, workers=4 if quick else 6, timeout=400 if quick else 2400, extra=["-noGenerateSpecTE"])
+    res = vc.tlc(work.dir, "RegexMC.tla", cfg, workers=4 if quick else 6, timeout=900 if quick else 10000, extra=["-noGenerateSpecTE"])
     if not res.ok() or res.distinct == 0:
         raise vc.ToolError("RegexMC (%s) did not pass:\n%s" % (cfg, vc.tlc_error_text(res)))
     neg = vc.tlc(work.dir, "RegexMC.tla", "RegexMC_bytes.cfg", workers=2, timeout=300, extra=["-noGenerateSpecTE"])
@@ -429,7 +429,7 @@ def run(tier, seed, replay):
         counters = {}
         step = 4000
         for a in range(0, len(cases), step):
-            c = check_cases(rep, work, vh, prelude, cases[a:a + step], "t%d" % (a // step), timeout=900 if quick else 2400)
+            c = check_cases(rep, work, vh, prelude, cases[a:a + step], "t%d" % (a // step), timeout=900 if quick else 6000)
             for k, n in c.items():
                 counters[k] = counters.get(k, 0) + n
         rep.cov["verdicts"] = counters
